@@ -7,6 +7,7 @@ import (
 	"encoding/json"
 	"fmt"
 	"math/rand"
+	"regexp"
 	"os"
 	"path/filepath"
 	"sort"
@@ -14,6 +15,7 @@ import (
 
 	"github.com/openconfig/goyang/pkg/yang"
 	"verif/internal/dump"
+	"verif/internal/hooklog"
 	"verif/internal/job"
 	"verif/internal/prng"
 	"verif/internal/schema"
@@ -223,7 +225,27 @@ func checkHeaders(j *job.Job, s *job.Sink, c int64, hs []hdr, imp hdr, importer 
 		var rej, rejOther []string
 		revisionedLoaded := map[string]bool{} // names of which a revisioned module has been offered
 		for _, i := range p {
-			err := ms.Parse(hs[i].text(), fmt.Sprintf("f%d.yang", i))
+			var err error
+			evs := hooklog.Collect(func() { err = ms.Parse(hs[i].text(), fmt.Sprintf("f%d.yang", i)) })
+			// event-log check: an accepted load files the module exactly once, under its
+			// name@latest-revision; a rejected load files nothing
+			adds := 0
+			for _, e := range evs {
+				if e.Name == "modules.add" {
+					adds++
+					s.Count("modules_add_events", 1)
+					full := hs[i].Name
+					if hs[i].latest() != "" {
+						full += "@" + hs[i].latest()
+					}
+					if e.KV["full"] != full {
+						bad("trace-filed-under-wrong-name", fmt.Sprintf("module %d filed as %s, expected %s", hs[i].ID, e.KV["full"], full), nil)
+					}
+				}
+			}
+			if (err == nil) != (adds == 1) {
+				bad("trace-add-count", fmt.Sprintf("load of module %d: error %v, %d table insertions", hs[i].ID, err, adds), nil)
+			}
 			if err != nil {
 				rej = append(rej, fmt.Sprint(hs[i].ID))
 				// One shape of rejection is a recorded finding: a module without
@@ -316,6 +338,8 @@ func mod(name, marker, rev string) string {
 	return fmt.Sprintf("module %s { namespace \"urn:%s\"; prefix p; %s leaf %s { type string; } }", name, name, r, marker)
 }
 
+var candName = regexp.MustCompile(`^foo(@\d{4}-\d{2}-\d{2})?\.yang$`)
+
 // Files: generated directory layouts. The worker's cwd is its own scratch directory.
 func Files(j *job.Job, s *job.Sink) {
 	start, _ := os.Getwd()
@@ -401,16 +425,46 @@ func Files(j *job.Job, s *job.Sink) {
 			ms.AddPath(filepath.Join(root, d))
 		}
 		var err error
-		if via == "read" {
-			err = ms.Read("foo")
-		} else {
-			if err = ms.Parse("module imp { namespace \"urn:imp\"; prefix i; import foo { prefix f; } }", "imp.yang"); err == nil {
-				if errs := ms.Process(); len(errs) > 0 {
-					err = errs[0]
+		evs := hooklog.Collect(func() {
+			if via == "read" {
+				err = ms.Read("foo")
+			} else {
+				if err = ms.Parse("module imp { namespace \"urn:imp\"; prefix i; import foo { prefix f; } }", "imp.yang"); err == nil {
+					if errs := ms.Process(); len(errs) > 0 {
+						err = errs[0]
+					}
 				}
 			}
-		}
+		})
 		os.Chdir(start)
+		// event-log check: which files were actually opened. Exactly the expected candidate,
+		// once, and never a file whose name is not foo.yang or foo@YYYY-MM-DD.yang.
+		var opened []string
+		for _, e := range evs {
+			if e.Name == "file.read" {
+				opened = append(opened, e.KV["path"])
+				s.Count("file_read_events", 1)
+			}
+		}
+		wantFile := ""
+		for _, l := range layout {
+			if l["marker"] == want && want != "" {
+				wantFile = l["file"]
+			}
+		}
+		for _, o := range opened {
+			if !candName.MatchString(filepath.Base(o)) {
+				s.Violation(c, j.CaseID(c), "C13.files", "trace-opened-a-foreign-file", fmt.Sprintf("opened %s while looking for module foo", o), desc, nil)
+			}
+		}
+		switch {
+		case want != "" && len(opened) != 1:
+			s.Violation(c, j.CaseID(c), "C13.files", "trace-file-reads", fmt.Sprintf("%d files opened (%v), expected exactly %s", len(opened), opened, wantFile), desc, nil)
+		case want != "" && filepath.Base(opened[0]) != wantFile:
+			s.Violation(c, j.CaseID(c), "C13.files", "trace-wrong-file", fmt.Sprintf("opened %s, expected %s", opened[0], wantFile), desc, nil)
+		case want == "" && len(opened) > 0:
+			s.Violation(c, j.CaseID(c), "C13.files", "trace-file-reads", fmt.Sprintf("opened %v though no directory holds a candidate", opened), desc, nil)
+		}
 		got := ""
 		if m := ms.Modules["foo"]; m != nil && len(m.Leaf) > 0 {
 			got = m.Leaf[0].Name
